@@ -47,10 +47,11 @@ def fails(r, plan):
     return one(r, plan)[0] == "diff"
 
 
-def drive_closure(which, count, h):
+def drive_closure(which, count, h, fresh=False):
     """One operator value ops.take(count) (which == 0) / ops.skip(count); h: (-100, _) = apply it to a new probe
     source, (-1 - k, _) = subscribe to application k, (j, i) = the source delivers i to subscription j.  Returns the flat encoding of Ops/ClosureSkip.v run_prog and how many deliveries
-    were made to a subscription that had already completed."""
+    were made to a subscription that had already completed.  fresh=True: a new operator value for every
+    application (the reference of C44)."""
     from reactivex import Observable, operators as ops
     from reactivex.disposable import Disposable
     observers, log = [], []
@@ -62,7 +63,7 @@ def drive_closure(which, count, h):
     apps, enc, nsub, done, fed_after = [], [], 0, set(), 0
     for (j, i) in h:
         if j <= -100:
-            apps.append(op(Observable(subscribe)))
+            apps.append(((ops.take if which == 0 else ops.skip)(count) if fresh else op)(Observable(subscribe)))
         elif j < 0:
             obs, j = apps[-1 - j], nsub
             obs.subscribe(on_next=lambda v, j=j: log.append((j, v + 1)),
